@@ -472,6 +472,7 @@ func checkC10(w *World, r *Report) {
 	}
 	r.Rule("C10.inventory", "P4,P5,P9", "every panic-capable operation on the BeginBlock/EndBlock trees of the custom modules is discharged by a dominating guard (g1), a validated configuration field (g2), constant evaluation (g3), the closed vetted table (g4) or a well-formed origin (g5)", 40)
 	r.Rule("C10.maybenil", "P8,P5", "a pointer field that validation requires to be nil in some accepted state, or that genesis export sets to nil, is dereferenced on the block trees only under a nil test of the same access path (or a vetted reason)", 3)
+	r.Rule("C10.select", "P7", "= C02.select: ContainsMinter guarantees that a period with the state's sequence id is configured; the block routine finds it only if the selection is by sequence id over all periods (a selection by list position returns 'not found' - and BeginBlock panics - for accepted lists whose ids do not start at 1)", 18)
 	r.Rule("C10.currentperiod", "P5", "every minter parameter write reachable from a message is dominated by ContainsMinter(current SequenceId); the genesis validator contains the same predicate", 3)
 	r.Rule("C10.swallow", "P5", "the distributor's block tree contains no explicit panic and its bank operations return their errors to callers that log and continue", 5)
 	r.Rule("C10.perm", "P8", "module accounts named in distributor parameters are validated against maccPerms (membership predicate on the ModuleAccount case), and the table handed to the validator is app.maccPerms", 2)
@@ -506,6 +507,8 @@ func checkC10(w *World, r *Report) {
 		}
 	}
 
+	// ---------- C10.select ----------
+	minterSelectRule(w, r, "C10.select")
 	// ---------- C10.currentperiod ----------
 	checkCurrentPeriod(w, r, "C10.currentperiod")
 	if gv := w.Func("x/cfeminter/types.GenesisState.Validate"); gv != nil {
